@@ -37,6 +37,17 @@ Definition f_mul_int (x : float64) (z : Z) : res float64 :=
   | Some y => Ok (f_mul x y)
   end.
 
+(* float(x) for a str-or-None x; x in [...]; dict[x] (None is a legal key that is never present) *)
+Definition float_of_optstr (o : option str) : res float64 :=
+  match o with
+  | None => Exn TypeError
+  | Some s => match py_float_of_str s with None => Exn ValueError | Some x => Ok x end
+  end.
+Definition optstr_in (o : option str) (l : list str) : bool :=
+  match o with Some s => existsb (beq s) l | None => false end.
+Definition lookup_opt {A} (k : option str) (d : list (str * A)) : option A :=
+  match k with Some s => lookup s d | None => None end.
+
 (* pow(base, e) for ints; a negative exponent would give a float (not modelled: OtherError) *)
 Definition py_pow (b : option Z) (e : Z) : res Z :=
   match b with
